@@ -99,7 +99,9 @@ def rely_on(prop, fn):
     """Make a lemma proved for one property an obligation of another property that relies on it (a callee
     contract used as a stub there): a change that breaks the lemma then fails the relying property too."""
     src = [l for l in LEMMAS if l.fn is fn][0]
-    LEMMAS.append(Lemma(fn, prop, src.params, src.family, src.name, src.cfg))
+    rel = Lemma(fn, prop, src.params, src.family, src.name, src.cfg)
+    rel.origin = getattr(src, "origin", src.prop)  # known findings of the lemma's own property apply here too
+    LEMMAS.append(rel)
     return fn
 
 
